@@ -477,12 +477,14 @@ func runLifeScenario(sc LifeScenario) LifeResult {
 		time.Sleep(2 * time.Millisecond) // let the DISCONNECTED handler decide about another cycle
 	}
 	<-userDone
-	// Close on a client that is not connected does nothing
+	// Close on a client that is not connected does nothing: no life-cycle event may fire
+	// (other closers' "close-ret" records may still be arriving: only handler events count)
 	if conn.Connected() == false {
-		n := len(lg.evs)
+		evCount := func() int { return lg.count("REGISTER") + lg.count("CONNECTED") + lg.count("DISCONNECTED") }
+		n := evCount()
 		conn.Close()
 		time.Sleep(2 * time.Millisecond)
-		if len(lg.evs) != n {
+		if evCount() != n {
 			lg.add("close-when-closed fired events")
 		}
 	}
